@@ -589,6 +589,27 @@ class SymQ:
     def __abs__(self):
         return SymQ(z3.If(self.num >= 0, self.num, -self.num), self.den, self.kind, self.bound, self.err)
 
+    def __floordiv__(self, o):
+        b = self._lift(o)
+        if b is None or not b.is_const() or b.const_value() <= 0:
+            return NotImplemented
+        c = b.const_value()
+        # floor((num/den) / (cn/cd)) = floor(num*cd / (den*cn))
+        q = (self.num * c.denominator) / (self.den * c.numerator)
+        return SymQ(q, 1, self.kind or "f", None if self.bound is None else self.bound / c + 1)
+
+    def __mod__(self, o):
+        q = self.__floordiv__(o)
+        if q is NotImplemented:
+            return NotImplemented
+        return self - q * o
+
+    def __divmod__(self, o):
+        q = self.__floordiv__(o)
+        if q is NotImplemented:
+            return NotImplemented
+        return q, self - q * o
+
     def floor_int(self):
         return SymInt(self.num / self.den, bound=None if self.bound is None else int(self.bound) + 1)
 
